@@ -128,7 +128,19 @@ def judge_model(spec, backend):
         if n == "SolverError":
             return [], "solver-error", 0
         return [("model:solve-raised:%s:%s" % (backend, n), str(r["exc"])[:200])], "raised", 0
-    return validate_posed(pep, backend, regenerate=True)
+    # what the user declared (kept by the grammar as plain lists at declaration time) is what the stored LMI objects denote
+    declared_probs = []
+    for name_, entries in (getattr(ctx, "declared_lmis", None) or {}).items():
+        M_ = ctx.lmis[name_]
+        nP_, nF_ = Point.counter, Expression.counter
+        for i_ in range(len(entries)):
+            for j_ in range(len(entries)):
+                want_ = entries[i_][j_]
+                want_v = R.functional_vec(want_, nP_, nF_) if hasattr(want_, "decomposition_dict") else np.concatenate([np.zeros(nP_ * (nP_ + 1) // 2 + nF_), [float(want_)]])
+                if not close(R.functional_vec(M_[i_, j_], nP_, nF_), want_v):
+                    declared_probs.append(("model:lmi-not-as-declared:%s" % backend, "entry (%d,%d) of LMI %s no longer denotes what was declared" % (i_, j_, name_)))
+    out_ = validate_posed(pep, backend, regenerate=True)
+    return (declared_probs[:1] + out_[0], out_[1], out_[2])
 
 
 def validate_posed(pep, backend, dr=False, regenerate=False):
